@@ -234,3 +234,65 @@ pub(crate) fn k_metadata_duration_extremes() {
     vk_assert!(d.as_secs() == total / rate as u64, "duration: whole seconds = samples / rate, up to the largest 36-bit sample count");
     vk_assert!(d.subsec_nanos() as u64 == (total % rate as u64) * 1_000_000_000 / rate as u64, "duration: nanoseconds from the remainder");
 }
+
+// ------------------------------------------------------------------ PADDING, APPLICATION, PICTURE type (C11 / C12)
+// contract PADDING: parse(size) skips exactly size bytes and yields Padding{size}; serialising writes exactly size zero bytes
+#[kani::proof]
+#[kani::unwind(4)]
+pub(crate) fn k_padding_roundtrip() {
+    let size: u32 = kani::any();
+    kani::assume(size <= 64);
+    let mut b: BitBuf<8> = BitBuf::any();
+    let avail = b.len;
+    let r = <Padding as FromBitStreamUsing>::from_reader(&mut b, BlockSize(size));
+    match r {
+        Ok(p) => {
+            vk_assert!(size * 8 <= avail && b.pos == size * 8 && p.size.get() == size, "PADDING consumes exactly its size and remembers it");
+            let mut out: BitBuf<8> = BitBuf::empty();
+            vk_assert!(<Padding as ToBitStream>::to_writer(&p, &mut out).is_ok() && out.len == size * 8, "PADDING serialises to exactly size bytes");
+            vk_assert!(out.limbs[0] == 0 && out.limbs[7] == 0, "padding bytes are zero");
+            vk_assert!(p.bytes() == Some(BlockSize(size)), "reported size == serialised size");
+        }
+        Err(_) => vk_assert!(size * 8 > avail, "PADDING fails only when the stream is too short"),
+    }
+}
+
+// contract APPLICATION (payload of 2 bytes): id (32 bits) then the payload; a declared size below 4 is InsufficientApplicationBlock;
+// serialising reproduces the bytes; reported size == 4 + payload
+#[kani::proof]
+#[kani::unwind(8)]
+pub(crate) fn k_application_roundtrip() {
+    let mut b: BitBuf<1> = BitBuf::any();
+    b.len = 48;
+    let orig = b.clone();
+    let size: u32 = kani::any();
+    kani::assume(size <= 6);
+    let r = <Application as FromBitStreamUsing>::from_reader(&mut b, BlockSize(size));
+    match r {
+        Ok(a) => {
+            vk_assert!(size >= 4 && a.id as u64 == orig.peek(0, 32) && a.data.len() == (size - 4) as usize && b.pos == size * 8, "APPLICATION: 32-bit id, then size - 4 payload bytes");
+            let mut out: BitBuf<1> = BitBuf::empty();
+            vk_assert!(<Application as ToBitStream>::to_writer(&a, &mut out).is_ok() && out.len == size * 8 && out.peek(0, size * 8) == orig.peek(0, size * 8), "APPLICATION serialises back to the same bytes");
+            vk_assert!(a.bytes() == Some(BlockSize(size)), "reported size == serialised size");
+        }
+        Err(e) => vk_assert!(size < 4 && matches!(e, Error::InsufficientApplicationBlock), "APPLICATION smaller than its id is rejected"),
+    }
+}
+
+// contract PICTURE type: codes 0..=20 map one to one onto the 21 picture types and back; everything else is InvalidPictureType
+#[kani::proof]
+#[kani::unwind(6)]
+pub(crate) fn k_picture_type_table() {
+    let mut b: BitBuf<1> = BitBuf::any();
+    b.len = 32;
+    let code = b.peek(0, 32);
+    let r = <PictureType as FromBitStream>::from_reader(&mut b);
+    match r {
+        Ok(t) => {
+            vk_assert!(code <= 20, "reserved picture type accepted");
+            let mut out: BitBuf<1> = BitBuf::empty();
+            vk_assert!(<PictureType as ToBitStream>::to_writer(&t, &mut out).is_ok() && out.len == 32 && out.peek(0, 32) == code, "picture type serialises back to its code");
+        }
+        Err(_) => vk_assert!(code > 20, "valid picture type rejected"),
+    }
+}
